@@ -3,7 +3,7 @@
 # copy and requires the quick check to report a violation.  usage: tools/validate_monitors.sh [ID]
 cd "$(dirname "$0")/.."
 FAIL=0
-grep -v '^#' tools/mutants.txt | grep -v '^$' | while IFS='|' read -r id name expr; do
+cat tools/mutants.txt tools/mutants.d/*.txt 2>/dev/null | grep -v '^#' | grep -v '^$' | while IFS='|' read -r id name expr; do
   [ -n "$1" ] && [ "$1" != "$id" ] && continue
   out=$(tools/mutant.sh "$expr" "$id" 2>&1); rc=$?
   if [ $rc -eq 0 ]; then echo "CAUGHT   $id $name: $(echo "$out" | grep key= | head -2 | tr -s ' ' | tr '\n' ';')";
